@@ -14,7 +14,7 @@
 // searches = "kind:q:k:act:ret:ids|..." with kind R|P|N, q = "minx,miny,maxx,maxy", the script
 //
 //	"Continue for the first k invocations, then act (s = Stop, w = wrapped Stop, f<n> = error n)",
-//	ret = nil | e<n> (the script's own error, unchanged) | stop (Stop surfaced) | other,
+//	ret = nil | e<n> (the script's own error, unchanged) | stop (Stop surfaced) | other | panic,
 //	ids = comma separated record ids in invocation order.  For N: ret = found|none, ids = the id.
 //
 // The kind letter may carry a tag that only names the history the trace comes from (the driver
@@ -84,6 +84,37 @@ func script(k int, act string, visits *[]int) (func(int) error, error) {
 		}
 		return e
 	}, e
+}
+
+// safely runs a search under recover: a panic of the implementation is an observation
+// (return class "panic"), judged as a violation by the driver.
+func safely(f func() error) (err error, panicked bool) {
+	defer func() {
+		if x := recover(); x != nil {
+			panicked = true
+		}
+	}()
+	return f(), false
+}
+
+func safeNearest(t *rtree.RTree, b rtree.Box) (id int, found bool, ret string) {
+	defer func() {
+		if x := recover(); x != nil {
+			id, found, ret = 0, false, "panic"
+		}
+	}()
+	id, found = t.Nearest(b)
+	if found {
+		return id, true, "found"
+	}
+	return 0, false, "none"
+}
+
+func retClassP(err, own error, panicked bool) string {
+	if panicked {
+		return "panic"
+	}
+	return retClass(err, own)
 }
 
 func retClass(err, own error) string {
@@ -285,13 +316,21 @@ func main() {
 	sizeHist := map[string]int{}
 	searches := 0
 	hook := 0
-	for i := 0; i < a.N; i++ {
+	// the last nBig cases (both tiers) are populations of 4097..5000 items, class "big:<layout>":
+	// the driver judges them by the executable specification on the item list alone (linear scans;
+	// the extracted tree model is quadratic there) plus the model searches on the REAL tree
+	const nBig = 3
+	for i := 0; i < a.N+nBig; i++ {
 		r := root.Fork()
 		// sizes 0..40 exhaustively (each with every layout in turn), then larger populations
 		var n int
 		layout := layouts[(i/41)%len(layouts)]
 		exhaustive := i < 41*len(layouts) || i%3 != 0
-		if exhaustive {
+		big := i >= a.N
+		if big {
+			n = r.Range(4097, 5000)
+			layout = []string{"grid", "clustered", "duplicates"}[(i-a.N)%3]
+		} else if exhaustive {
 			n = i % 41
 		} else {
 			switch r.Intn(8) {
@@ -307,7 +346,11 @@ func main() {
 			}
 			layout = layouts[r.Intn(len(layouts))]
 		}
-		classes[layout]++
+		if big {
+			classes["big:"+layout]++
+		} else {
+			classes[layout]++
+		}
 		switch {
 		case n <= 4:
 			sizeHist["0-4"]++
@@ -349,14 +392,22 @@ func main() {
 		run := func(kind string, q ibox, k int, act string) {
 			var visits []int
 			cb, own := script(k, act, &visits)
-			var err error
-			if kind == "R" {
-				err = tree.RangeSearch(q.rt(), cb)
-			} else {
-				err = tree.PrioritySearch(q.rt(), cb)
-			}
+			err, pan := safely(func() error {
+				if kind == "R" {
+					return tree.RangeSearch(q.rt(), cb)
+				}
+				return tree.PrioritySearch(q.rt(), cb)
+			})
 			acts[kind+act[:1]]++
-			emit(kind, q, k, act, retClass(err, own), visits)
+			emit(kind, q, k, act, retClassP(err, own, pan), visits)
+		}
+		nearest := func(tag string, q ibox) {
+			id, found, ret := safeNearest(tree, q.rt())
+			if found {
+				emit("N"+tag, q, 0, "s", ret, []int{id})
+			} else {
+				emit("N"+tag, q, 0, "s", ret, nil)
+			}
 		}
 		nq := 4
 		if n > 1000 {
@@ -371,7 +422,34 @@ func main() {
 			}
 			return "f" + strconv.Itoa(r.Range(1, 99))
 		}
+		caseClass := layout
+		if big {
+			caseClass = "big:" + layout
+			bb := bound(items)
+			some := items[r.Intn(n)].b
+			for qn, q := range []ibox{
+				{bb.minx - 1, bb.miny - 1, bb.maxx + 1, bb.maxy + 1},     // enclosing
+				{bb.minx, bb.miny, bb.maxx, bb.maxy},                     // the exact extent
+				{some.maxx, some.maxy, some.maxx, some.maxy},             // a point (corner of an item)
+				{bb.maxx + 2, bb.miny, bb.maxx + 9, bb.maxy},             // disjoint
+				{bb.minx - 1, bb.miny - 1, (bb.minx + bb.maxx) / 2, bb.maxy + 1}, // about half
+			} {
+				qcls[[]string{"big_enclosing", "big_extent", "big_point", "big_disjoint", "big_half"}[qn]]++
+				run("R", q, n+1, "s")
+				run("R", q, r.Intn(40), pickAct(qn))
+				run("R", q, r.Intn(n+1), pickAct(qn+1))
+				run("P", q, r.Intn(40), pickAct(qn+2))
+				run("P", q, 1+r.Intn(3), pickAct(qn))
+				nearest("", q)
+				if qn == 0 {
+					run("P", q, n+1, "s") // one complete PrioritySearch
+				}
+			}
+		}
 		for qi, q := range genQueries(r, items, nq, qcls) {
+			if big {
+				break
+			}
 			hits := 0
 			for _, it := range items {
 				if overlapI(it.b, q) {
@@ -384,12 +462,7 @@ func main() {
 				run("P", q, n+1, pickAct(r.Intn(3)))
 			}
 			// Nearest
-			id, found := tree.Nearest(q.rt())
-			if found {
-				emit("N", q, 0, "s", "found", []int{id})
-			} else {
-				emit("N", q, 0, "s", "none", nil)
-			}
+			nearest("", q)
 			// interrupted searches: every k for small trees, sampled k otherwise
 			switch {
 			case n <= 12:
@@ -427,7 +500,7 @@ func main() {
 			}
 		}
 		// ---- histories: searches started from inside a callback of another search on the same tree
-		if n >= 2 {
+		if n >= 2 && !big {
 			// populations above 1000: the extracted model is quadratic there, so the histories are
 			// kept short (early interruptions, no complete inner searches, no goroutines)
 			light := n > 1000
@@ -445,18 +518,15 @@ func main() {
 				var visits []int
 				switch kind {
 				case "N":
-					id, found := tree.Nearest(q.rt())
-					if found {
-						emit("Ni", q, 0, "s", "found", []int{id})
-					} else {
-						emit("Ni", q, 0, "s", "none", nil)
-					}
+					nearest("i", q)
 				case "P":
 					cb, own := script(k, act, &visits)
-					emit("Pi", q, k, act, retClass(tree.PrioritySearch(q.rt(), cb), own), visits)
+					err, pan := safely(func() error { return tree.PrioritySearch(q.rt(), cb) })
+					emit("Pi", q, k, act, retClassP(err, own, pan), visits)
 				case "R":
 					cb, own := script(k, act, &visits)
-					emit("Ri", q, k, act, retClass(tree.RangeSearch(q.rt(), cb), own), visits)
+					err, pan := safely(func() error { return tree.RangeSearch(q.rt(), cb) })
+					emit("Ri", q, k, act, retClassP(err, own, pan), visits)
 				}
 				acts["inner"+kind]++
 			}
@@ -491,14 +561,14 @@ func main() {
 					}
 					return cb0(id)
 				}
-				var err error
-				if kind == "R" {
-					err = tree.RangeSearch(q.rt(), cb)
-				} else {
-					err = tree.PrioritySearch(q.rt(), cb)
-				}
+				err, pan := safely(func() error {
+					if kind == "R" {
+						return tree.RangeSearch(q.rt(), cb)
+					}
+					return tree.PrioritySearch(q.rt(), cb)
+				})
 				acts["outer"+kind]++
-				emit(kind+"o", q, k, act, retClass(err, own), visits)
+				emit(kind+"o", q, k, act, retClassP(err, own, pan), visits)
 			}
 			positions := func(all bool) map[int]bool {
 				at := map[int]bool{}
@@ -556,22 +626,22 @@ func main() {
 							var visits []int
 							cb0, own := script(k, act, &visits)
 							cb := func(id int) error { runtime.Gosched(); return cb0(id) }
-							var err error
-							if kind == "R" {
-								err = tree.RangeSearch(q.rt(), cb)
-							} else {
-								err = tree.PrioritySearch(q.rt(), cb)
-							}
-							results[g] = append(results[g], res{kind, act, retClass(err, own), q, k, visits})
+							err, pan := safely(func() error {
+								if kind == "R" {
+									return tree.RangeSearch(q.rt(), cb)
+								}
+								return tree.PrioritySearch(q.rt(), cb)
+							})
+							results[g] = append(results[g], res{kind, act, retClassP(err, own, pan), q, k, visits})
 						}
 						one("P", corners[g], n+1, "s")
 						one("R", enclosing, n+1, "s")
 						one("P", corners[(g+1)%G], ks[g], []string{"s", "w", "f7"}[g%3])
-						id, found := tree.Nearest(corners[(g+2)%G].rt())
+						id, found, ret := safeNearest(tree, corners[(g+2)%G].rt())
 						if found {
-							results[g] = append(results[g], res{"N", "s", "found", corners[(g+2)%G], 0, []int{id}})
+							results[g] = append(results[g], res{"N", "s", ret, corners[(g+2)%G], 0, []int{id}})
 						} else {
-							results[g] = append(results[g], res{"N", "s", "none", corners[(g+2)%G], 0, nil})
+							results[g] = append(results[g], res{"N", "s", ret, corners[(g+2)%G], 0, nil})
 						}
 					}(g)
 				}
@@ -585,7 +655,7 @@ func main() {
 				}
 			}
 		}
-		fmt.Fprintf(w, "%d\t%s\t%s\t%d\t%s\t%s\t%s\n", i, layout, itemStr, tree.Count(), ext, dump, strings.Join(out, "|"))
+		fmt.Fprintf(w, "%d\t%s\t%s\t%d\t%s\t%s\t%s\n", i, caseClass, itemStr, tree.Count(), ext, dump, strings.Join(out, "|"))
 	}
 	stats := map[string]interface{}{"layouts": classes, "queries": qcls, "scripts": acts, "sizes": sizeHist,
 		"searches": searches, "trees_dumped_through_hook": hook, "max_population": maxN}
